@@ -1,7 +1,6 @@
 From Coq Require Import List NArith ZArith Bool.
 Import ListNotations.
 Require Import Parser SBase SPrim SDir SScalar SFetch Pipe.
-From Coq Require Import ExtrOcamlBasic.
 Open Scope N_scope.
 
 Section Inv.
@@ -103,4 +102,3 @@ Fixpoint scan_chk (fuel : nat) (s : sc strin) (bad : N) : N :=
 End Chk.
 Definition run_chk (s : list N) : N :=
   let F := (length s + 10)%nat in scan_chk F s (4 * F + 20) (init_sc {| si_chars := s; si_look := 0 |}) 0.
-Extraction "pipec.ml" run_chk.
